@@ -13,13 +13,13 @@ from concurrent.futures import ThreadPoolExecutor
 from . import pcommon
 from .. import common, build, e1, e3, proto, alpha, tpool
 
-NEED = ('accept-D', 'accept-R', 'reject', 'reply-MORE', 'soft-done')
+NEED = ('accept-D', 'accept-R', 'reject', 'reply-MORE', 'soft-done', 'reannounce-other-address')
 
 def plan(tier):
     S = pcommon.S
     if tier == 'quick':
-        return [S('solo/hurry/login+drone/t30', 'login+drone', 30, [2], alpha.scen_hurry([2], pbudget=1))]
-    return [S('solo/hurry/%s/t30' % g, g, 30, [2], alpha.scen_hurry([2])) for g in ('login+drone', 'ipr+comb', 'all4')] + \
+        return [S('solo/hurry/login+drone/t30', 'login+drone', 30, [2], alpha.scen_hurry([2], pbudget=1, alt_announce=True))]      # incl. the id re-announced from another address
+    return [S('solo/hurry/%s/t30' % g, g, 30, [2], alpha.scen_hurry([2], alt_announce=True)) for g in ('login+drone', 'ipr+comb', 'all4')] + \
            [S('pair/tiny/login+drone/t30', 'login+drone', 30, [1, 2], alpha.tiny([1, 2]))]
 
 # ---- 2. addresses --------------------------------------------------------------------------------------
@@ -161,11 +161,36 @@ def logs_universe(run, tier, b):
             logged += sum(1 for m in MARKERS if m in alltext)
     return {'logs_cases': n, 'logs_stdout_lines_validated': lines_checked, 'logs_marker_texts_found_in_files': logged}
 
+def long_relays(run, tier, b):
+    """Relayed texts near and beyond the daemon's 1024-byte line buffer: whatever is written must still be single valid lines."""
+    conf = e1.conf_text(os.path.join(b, 'mods-wrapped'), services=pcommon.G['login+drone'], timeout=0, rules=pcommon.rules_for(pcommon.G['login+drone']))
+    n = 0
+    with e1.Server(conf, builddir=b) as srv:
+        for L in (900, 990, 1000, 1005, 1010, 1015, 1020, 1023, 1024, 1025, 1100, 2000, 3000):
+            for kind in ('NO', 'AGAIN', 'MORE', 'OK'):
+                lines = ['1 C 10.0.0.1 1111 10.9.9.9 6667', '1 H', '1 P :+x acct pass', '-1 X drone.svc 1_1 :OK', '-1 X login.svc 1_1 :%s %s' % (kind, 'T' * L), '-1 ? stats']
+                res, status, err, ex = srv.trace([('L', l + '\n') for l in lines], 0)
+                n += 1
+                raw = b''.join(r.raw_out for r in res)
+                for o in raw.split(b'\n'):
+                    if not o:
+                        continue
+                    t = o.decode('latin-1')
+                    p = proto.parse_line(common.mask_time(t))
+                    if p.kind == 'bad' or len(o) > 1024:
+                        run.violation('C09.malformed-line', '[long relay %s, %d characters] the server channel received %r... (%d bytes): %s' % (kind, L, t[:80], len(o), p.text if p.kind == 'bad' else 'longer than the line buffer'),
+                                      {'engine': 'E1-trace', 'conf': conf, 'lines': lines}, dedup='longrelay|' + kind)
+                if status != 'ok':
+                    run.note('long relay %s/%d: daemon %s (reported by C08)' % (kind, L, status))
+    return {'long_relay_traces': n}
+
+
 def main(tier):
     def extra(run):
         b = build.build()
         c = addresses(run, tier, b)
         c.update(logs_universe(run, tier, b))
+        c.update(long_relays(run, tier, b))
         return c
     return pcommon.run_plan('C09', tier, plan(tier), ('C09.',), NEED, extra_cov=extra)
 
